@@ -554,8 +554,11 @@ fn ref_node(c: &Cfg, t: &Ty, n: &BNode) -> Option<R> {
     match n {
         BNode::Leaf(l) => {
             // a `u16` request on a token id in VALUE position: the sequential paths' `deserialize_u16` shortcut hands
-            // over the raw id, the tape's ValueDeserializer goes through the resolver: a misfit, no claim
-            if matches!((t, l), (Ty::U16, BLeaf::Id(_))) { return None; }
+            // over the raw id (resolver not consulted), the tape's ValueDeserializer forwards to deserialize_any and
+            // goes through the resolver (-> a string -> type error): candidate finding u16-on-token-id.  The
+            // reference is the property's reading ("token ids through the resolver", what the tape path does); the
+            // case is flagged so that only the SEQUENTIAL paths' disagreement is reported, under that kind.
+            if let (Ty::U16, BLeaf::Id(_)) = (t, l) { U16_ON_ID.with(|f| f.set(true)); }
             let p = match leaf_prim(c, l) { Ok(p) => p, Err(e) => return Some(Err(e)) };
             Some(accept(t, &p))
         }
@@ -647,16 +650,19 @@ fn ref_struct(c: &Cfg, decl: &[(String, Option<u16>, Ty)], by_token: bool, fs: &
 }
 
 thread_local! { static RGB_IN_ARRAY: std::cell::Cell<bool> = std::cell::Cell::new(false); }
+thread_local! { static U16_ON_ID: std::cell::Cell<bool> = std::cell::Cell::new(false); }
 
 /// reference value plus the known finding (if any) the case probes: only the TAPE path's disagreement may be
 /// reported under that kind
 pub fn value_and_kind(c: &Cfg, ty: &RootTy, d: &BDoc) -> (Option<String>, Option<&'static str>) {
     RGB_IN_ARRAY.with(|f| f.set(false));
+    U16_ON_ID.with(|f| f.set(false));
     let v = value_of_bin(c, ty, d);
     // a document that STARTS with a ghost object is refused by the tape parser by design (tape.rs `open_empty_err`),
     // while both sequential deserializers skip it
     let kind = if d.fields.first().map(|f| f.ghosts > 0).unwrap_or(false) { Some("leading-ghost-root") }
-        else if RGB_IN_ARRAY.with(|f| f.get()) { Some("rgb-in-array") } else { None };
+        else if RGB_IN_ARRAY.with(|f| f.get()) { Some("rgb-in-array") }
+        else if U16_ON_ID.with(|f| f.get()) { Some("u16-on-token-id") } else { None };
     (v, kind)
 }
 
@@ -892,9 +898,9 @@ pub fn exec(w: &[&str], obs: &mut Obs) -> Option<String> {
             let need = max_token_len(&raw, big);
             let mut check = |name: &str, got: String, obs: &mut Obs| {
                 if got != expect {
-                    // probes of the known findings: the tape path (and only it) may disagree, under the finding's kind
+                    // probes of the known findings: only the path(s) the finding is about may disagree, under its kind (tape for rgb-in-array / leading-ghost-root, the sequential paths for u16-on-token-id)
                     match kind {
-                        Some(k) if name == "tape" => { obs.violation(k, &case(), &format!("{} gives {} reference {}", name, got, expect)); }
+                        Some(k) if (k == "u16-on-token-id") != (name == "tape") => { obs.violation(k, &case(), &format!("{} gives {} reference {}", name, got, expect)); }
                         _ => { obs.violation(&format!("c04-{}-ne-reference", name), &case(), &format!("{} gives {} reference {}", name, got, expect)); }
                     }
                 }
@@ -1204,7 +1210,13 @@ pub fn gen(g: &mut Gen) {
         let (bd, ty) = gen_narrow_case(&mut g.rng);
         let c = gen_cfg(&mut g.rng);
         let ty = RootTy::Plain(ty);
-        if value_of_bin(&c, &ty, &bd).is_some() { g.emit(format!("bde_spec {} {} {}", show_cfg(&c), show_root(&ty), show_bdoc(&bd))); g.count("narrow:claimed"); } else { g.count("narrow:u16-on-id-no-claim"); }
+        let (val, kind) = value_and_kind(&c, &ty, &bd);
+        if val.is_some() {
+            match kind {
+                Some(k) => { let key = format!("probe:{}", k); if g.hist.get(&key).copied().unwrap_or(0) < 15 { g.emit(format!("bde_spec {} {} {}", show_cfg(&c), show_root(&ty), show_bdoc(&bd))); g.count(&key); } }
+                None => { g.emit(format!("bde_spec {} {} {}", show_cfg(&c), show_root(&ty), show_bdoc(&bd))); g.count("narrow:claimed"); }
+            }
+        } else { g.count("narrow:no-claim"); }
         emit_paths(g, &c, &ty, &render_bdoc(&bd), true);
     }
 
